@@ -9,11 +9,12 @@ pub mod c14;
 pub mod c16;
 pub mod c17;
 pub mod c18;
+pub mod c19;
 pub mod sigs;
 pub mod c09b;
 
 use crate::runner::Check;
 
 pub fn all() -> Vec<Check> {
-    vec![c01::check(), sigs::check_c02(), c03::check(), c04::check(), sigs::check_c06(), c07::check(), c08::check(), c09::check(), c10::check(), c14::check(), c16::check(), c17::check(), c18::check()]
+    vec![c01::check(), sigs::check_c02(), c03::check(), c04::check(), sigs::check_c06(), c07::check(), c08::check(), c09::check(), c10::check(), c14::check(), c16::check(), c17::check(), c18::check(), c19::check()]
 }
